@@ -3,6 +3,9 @@ From Coq Require Import List Arith Bool Lia.
 Import ListNotations.
 Require Import Verif.Model.C18 Verif.Model.C18_Sync Verif.Proofs.C18_Task.
 
+Lemma nupd_same : forall A (f : nat -> A) k v, nupd f k v k = v.
+Proof. intros. unfold nupd. rewrite Nat.eqb_refl. reflexivity. Qed.
+
 (* ===================== B. once-guard ===================== *)
 Record OInv (s : ostate) : Prop := {
   oi_new : o_phase s = ONew -> o_runs s = 0 /\ forall c, o_pc s c = CIdle;
@@ -24,15 +27,15 @@ Proof.
   - apply cpc_eqb_eq in G. destruct (o_phase s) as [|c'|] eqn:P.
     + destruct (I1 eq_refl) as [R A]. constructor; cbn.
       * discriminate.
-      * intros c1 H. injection H as H. subst c1. rewrite R. split; [reflexivity | apply upd_same].
+      * intros c1 H. injection H as H. subst c1. rewrite R. split; [reflexivity | apply nupd_same].
       * discriminate.
-      * intros c1 H. unfold upd in H. destruct (Nat.eqb c1 c); [discriminate|]. rewrite A in H. discriminate.
+      * intros c1 H. unfold nupd in H. destruct (Nat.eqb c1 c); [discriminate|]. rewrite A in H. discriminate.
     + destruct (I2 c' eq_refl) as [R A]. constructor; cbn.
       * discriminate.
-      * intros c1 H. injection H as H. subst c1. split; [assumption|]. unfold upd. destruct (Nat.eqb c' c) eqn:E; [|assumption].
+      * intros c1 H. injection H as H. subst c1. split; [assumption|]. unfold nupd. destruct (Nat.eqb c' c) eqn:E; [|assumption].
         apply Nat.eqb_eq in E. subst. congruence.
       * discriminate.
-      * intros c1 H. unfold upd in H. destruct (Nat.eqb c1 c); [discriminate|]. apply I4 in H. discriminate.
+      * intros c1 H. unfold nupd in H. destruct (Nat.eqb c1 c); [discriminate|]. apply I4 in H. discriminate.
     + constructor; cbn.
       * discriminate.
       * discriminate.
@@ -101,20 +104,20 @@ Proof.
     { intros t'. destruct (m_pc s t') eqn:P'; auto; exfalso;
         (assert (m_pc s t' <> MIdle) as X by congruence; apply I3 in X; discriminate). }
     constructor; cbn; auto.
-    + intros t' Hne. unfold upd in Hne. destruct (Nat.eqb t' t) eqn:E.
+    + intros t' Hne. unfold nupd in Hne. destruct (Nat.eqb t' t) eqn:E.
       * apply Nat.eqb_eq in E. subst. reflexivity.
       * exfalso. apply Hne. apply Hall.
-    + intros t' k'. unfold upd. destruct (Nat.eqb t' t); [discriminate|]. rewrite Hall. discriminate.
-    + intros t' k' v. unfold upd. destruct (Nat.eqb t' t); [discriminate|]. rewrite Hall. discriminate.
+    + intros t' k'. unfold nupd. destruct (Nat.eqb t' t); [discriminate|]. rewrite Hall. discriminate.
+    + intros t' k' v. unfold nupd. destruct (Nat.eqb t' t); [discriminate|]. rewrite Hall. discriminate.
   - (* lookup *)
     destruct (m_pc s t) as [|k|k|k v] eqn:P; try discriminate. apply holds_eq in G.
     constructor; cbn; auto.
-    + intros t' Hne. unfold upd in Hne. destruct (Nat.eqb t' t) eqn:E.
+    + intros t' Hne. unfold nupd in Hne. destruct (Nat.eqb t' t) eqn:E.
       * apply Nat.eqb_eq in E. subst. assumption.
       * apply I3. assumption.
-    + intros t' k'. unfold upd. destruct (Nat.eqb t' t) eqn:E; [|apply I4].
+    + intros t' k'. unfold nupd. destruct (Nat.eqb t' t) eqn:E; [|apply I4].
       destruct (m_table s k) eqn:T; [discriminate|]. intros H. injection H as <-. assumption.
-    + intros t' k' v'. unfold upd. destruct (Nat.eqb t' t) eqn:E; [|apply I5].
+    + intros t' k' v'. unfold nupd. destruct (Nat.eqb t' t) eqn:E; [|apply I5].
       destruct (m_table s k) eqn:T; [|discriminate]. intros H. injection H as <- <-. assumption.
   - (* create *)
     destruct (m_pc s t) as [|k|k|k v] eqn:P; try discriminate. apply holds_eq in G.
@@ -122,7 +125,7 @@ Proof.
     assert (forall t', t' <> t -> m_pc s t' = MIdle) as Hothers.
     { intros t' Hne. destruct (m_pc s t') eqn:P'; auto; (assert (m_lock s = Some t') by (apply I3; congruence); congruence). }
     constructor; cbn.
-    + intros k' v'. unfold upd. destruct (Nat.eqb k' k) eqn:E.
+    + intros k' v'. unfold nupd. destruct (Nat.eqb k' k) eqn:E.
       * apply Nat.eqb_eq in E. subst k'. split.
         -- intros H. injection H as <-. left. reflexivity.
         -- intros [H|H]; [injection H as <-; reflexivity|]. apply I1 in H. congruence.
@@ -131,25 +134,25 @@ Proof.
         -- intros [H|H]; [injection H as -> _; rewrite Nat.eqb_refl in E; discriminate|]. apply I1. assumption.
     + constructor; [|assumption]. intros Hin. apply in_map_iff in Hin. destruct Hin as [[k' v'] [Hk Hin]].
       cbn in Hk. subst k'. apply I1 in Hin. congruence.
-    + intros t' Hne. unfold upd in Hne. destruct (Nat.eqb t' t) eqn:E.
+    + intros t' Hne. unfold nupd in Hne. destruct (Nat.eqb t' t) eqn:E.
       * apply Nat.eqb_eq in E. subst. assumption.
       * apply I3. assumption.
-    + intros t' k'. unfold upd at 1. destruct (Nat.eqb t' t) eqn:E; [discriminate|].
+    + intros t' k'. unfold nupd at 1. destruct (Nat.eqb t' t) eqn:E; [discriminate|].
       apply Nat.eqb_neq in E. rewrite (Hothers t' E). discriminate.
-    + intros t' k' v'. unfold upd at 1. destruct (Nat.eqb t' t) eqn:E.
-      * intros H. injection H as <- <-. apply upd_same.
+    + intros t' k' v'. unfold nupd at 1. destruct (Nat.eqb t' t) eqn:E.
+      * intros H. injection H as <- <-. apply nupd_same.
       * apply Nat.eqb_neq in E. rewrite (Hothers t' E). discriminate.
-    + intros t' k' v' Hin. pose proof (I6 _ _ _ Hin) as Ht. unfold upd. destruct (Nat.eqb k' k) eqn:E; [|assumption].
+    + intros t' k' v' Hin. pose proof (I6 _ _ _ Hin) as Ht. unfold nupd. destruct (Nat.eqb k' k) eqn:E; [|assumption].
       apply Nat.eqb_eq in E. subst. congruence.
   - (* release *)
     destruct (m_pc s t) as [|k|k|k v] eqn:P; try discriminate. apply holds_eq in G.
     assert (forall t', t' <> t -> m_pc s t' = MIdle) as Hothers.
     { intros t' Hne. destruct (m_pc s t') eqn:P'; auto; (assert (m_lock s = Some t') by (apply I3; congruence); congruence). }
     constructor; cbn; auto.
-    + intros t' Hne. exfalso. apply Hne. unfold upd. destruct (Nat.eqb t' t) eqn:E; [reflexivity|].
+    + intros t' Hne. exfalso. apply Hne. unfold nupd. destruct (Nat.eqb t' t) eqn:E; [reflexivity|].
       apply Nat.eqb_neq in E. auto.
-    + intros t' k'. unfold upd. destruct (Nat.eqb t' t) eqn:E; [discriminate|]. apply I4.
-    + intros t' k' v'. unfold upd. destruct (Nat.eqb t' t) eqn:E; [discriminate|]. apply I5.
+    + intros t' k'. unfold nupd. destruct (Nat.eqb t' t) eqn:E; [discriminate|]. apply I4.
+    + intros t' k' v'. unfold nupd. destruct (Nat.eqb t' t) eqn:E; [discriminate|]. apply I5.
     + intros t' k' v' [H|H]; [injection H as <- <- <-; eauto | eauto].
 Qed.
 
